@@ -298,8 +298,20 @@ def run(ctx):
     n_deact = 0
     for path, st in feasible_paths(dp, P, limit=200000):
         stores_ = [variant_of(ev[3]) for ev in st.events if ev[0] == 'store' and ev[2]['p'] and ev[2]['p'][-1].get('name') == 'state']
-        eqs = {(f, var) for f, var, equal in cmp_events(st, P) if equal}
+        cmps = cmp_events(st, P)
+        eqs = {(f, var) for f, var, equal in cmps if equal}
+        neqs = {(f, var) for f, var, equal in cmps if not equal}
         deact = ('pdu_type', 'PdutypeDeactivateallpdu') in eqs
+        # the tests a path makes on the PDU type must be satisfiable together: a path that requires the type to be two different values (or
+        # to be and not to be one value) is dead code - a reset that sits behind an earlier "not a data PDU -> skip" test is never reached
+        pt_eq = {var for f, var in eqs if f == 'pdu_type' and var and var.startswith('Pdutype') and not var.startswith('Pdutype2')}
+        pt_ne = {var for f, var in neqs if f == 'pdu_type' and var and var.startswith('Pdutype') and not var.startswith('Pdutype2')}
+        if len(pt_eq) > 1 or (pt_eq & pt_ne):
+            if deact and stores_:
+                ctx.fail('R12.5', 'reset:reachable', 'the deactivate-all reset of read_data_pdu is unreachable: the path to it requires pdu_type to be %s and not %s '
+                         '(an earlier test on the PDU type already left for every deactivate-all); after a deactivate-all the client would ignore the next demand-active'
+                         % (sorted(pt_eq), sorted(pt_ne)), dp.where())
+            continue
         if deact:
             n_deact += 1
             ctx.check(stores_ == ['DemandActivePDU'], 'R12.5', 'reset:present',
